@@ -489,9 +489,52 @@ func runC19(c *eng.Ctx) {
 		c.Check(eng.DominatedBy(f, run.Instr, d, nil), "defer<run", run.Instr, f, "the recover block is installed before the root stage runs", "")
 	})
 
+	// ---- 8a. a stage that was counted as pending is given back also when STARTING it panics --------------------------------------------
+	c.Rule("TYPESTATE", plT+".executeStage{a counted stage is completed when starting it panics}", func() {
+		f := c.Fn(plT + ".executeStage")
+		inc := c.One(f, eng.CallTo(smT+".executeStage"), "sm.executeStage(parent, id, stage) (pending++)")
+		foreign := p.SitesDirect(f, func(p *eng.Prog, in ssa.Instruction) bool {
+			cl, ok := in.(*ssa.Call)
+			return ok && cl.Common().IsInvoke() && strings.HasSuffix(cl.Common().Value.Type().String(), "stage.Stage") && (cl.Common().Method.Name() == "Plan" || cl.Common().Method.Name() == "Execute")
+		})
+		c.Check(len(foreign) >= 2, "stage-code-called", nil, f, "executeStage runs the stage's own Plan() and Execute()", fmt.Sprintf("%d calls", len(foreign)))
+		// a deferred function of executeStage that recovers and completes THIS stage with the recovered error
+		var guards []eng.Site
+		for _, d := range p.SitesDirect(f, func(p *eng.Prog, in ssa.Instruction) bool { _, ok := in.(*ssa.Defer); return ok }) {
+			g := eng.FuncOfValue(d.Instr.(*ssa.Defer).Call.Value)
+			if g == nil {
+				continue
+			}
+			rec := p.Sites(g, eng.CallTo("builtin:recover"))
+			if len(rec) == 0 {
+				continue
+			}
+			okDone := false
+			for _, cs := range p.Sites(g, eng.CallTo(smT+".completeStage")) {
+				a := eng.CallArgs(cs.Instr.(*ssa.Call))
+				if len(a) == 2 && !eng.IsNilConst(a[1]) && eng.DependsOn(a[1], func(x ssa.Value) bool { return x == rec[0].Instr.(ssa.Value) }) {
+					okDone = true
+				}
+			}
+			if okDone {
+				guards = append(guards, d)
+			}
+		}
+		for i, x := range foreign {
+			_, after := eng.Reaches(f, inc.Instr, []eng.Site{x}, nil)
+			if !after {
+				continue // runs before the stage is counted: a panic leaves nothing behind
+			}
+			c.Check(len(guards) > 0 && eng.DominatedBy(f, x.Instr, guards, nil), fmt.Sprintf("panic-completes-the-stage[%d]", i), x.Instr, f,
+				"once a stage is counted as pending, a panic in its Plan() / Execute() (an inline stage runs its operators right there) is recovered by executeStage itself and completes THAT stage with the error: "+
+					"under an async parent the panic would otherwise unwind into the worker pool, whose handler completes the PARENT — the stage's own count is never given back and the pipeline never signals completion",
+				"no deferred recover→completeStage(stageID, err) covers this call")
+		}
+	})
+
 	// ---- 8b. nothing between an operator and the two designated handlers swallows a panic or an error ----------------------------
 	c.Rule("OWNER", "query{recover() only in the designated handlers}", func() {
-		allowed := map[string]bool{plT + ".Execute": true, poolT + ".execTask": true}
+		allowed := map[string]bool{plT + ".Execute": true, plT + ".executeStage": true, poolT + ".execTask": true}
 		n := 0
 		for _, fn := range p.AllFuncs {
 			k := p.FuncKey(fn)
@@ -501,15 +544,15 @@ func runC19(c *eng.Ctx) {
 			for _, s := range p.SitesDirect(fn, eng.CallTo("builtin:recover")) {
 				top := topFunc(c, fn)
 				if !allowed[top] {
-					if o := ownerThroughCallers(c, fn, []string{plT + ".Execute", poolT + ".execTask"}, 0, map[*ssa.Function]bool{}); o != "" {
+					if o := ownerThroughCallers(c, fn, []string{plT + ".Execute", plT + ".executeStage", poolT + ".execTask"}, 0, map[*ssa.Function]bool{}); o != "" {
 						top = o // a helper deferred by a designated handler
 					}
 				}
 				n++
-				c.Check(allowed[top], "recover@"+top, s.Instr, fn, "on the query execution path a panic is recovered only by pipeline.Execute and by the worker pool's task wrapper (both turn it into the stage's / pipeline's error); a recover anywhere below would let a panicking operator look successful", "recover() in "+top)
+				c.Check(allowed[top], "recover@"+top, s.Instr, fn, "on the query execution path a panic is recovered only by pipeline.Execute, by executeStage (for the stage it just counted) and by the worker pool's task wrapper (all turn it into the stage's / pipeline's error); a recover anywhere below would let a panicking operator look successful", "recover() in "+top)
 			}
 		}
-		c.Check(n == 2, "both-handlers-present", nil, nil, "exactly the two designated recover sites exist", fmt.Sprintf("%d recover sites", n))
+		c.Check(n >= 2 && n <= 3, "both-handlers-present", nil, nil, "the designated recover sites exist (pipeline.Execute and the pool's task wrapper; executeStage's per-stage handler since F21)", fmt.Sprintf("%d recover sites", n))
 		ex := c.Fn("query/stage.planNode.ExecuteWithStats")
 		op := c.One(ex, invokeOn(".op", "Execute"), "p.op.Execute()")
 		for i, r := range eng.SuccessReturns(ex) {
